@@ -62,6 +62,33 @@ Proof.
 Qed.
 Print Assumptions c20_pure_store.
 
+(* THE JSON-LEVEL REDACTOR (redactRawJSON / redactJSONValue: the walk over an extension config's raw JSON), on its own.
+   For EVERY JSON value j - any depth, any number of TLS contexts, in arrays, as sibling members, nested in each other,
+   the key spelled in any case, private_key members that are not strings - after the redaction every string directly
+   under a member named "private_key" is empty or the placeholder ... *)
+Theorem c20_extend_json_no_leak : forall j, Forall ok_secret (key_strings (blank_json_keys j)).
+Proof. exact blank_key_strings. Qed.
+Print Assumptions c20_extend_json_no_leak.
+(* ... and the output is otherwise the input: same shape, same members in the same order, same leaves; a document
+   without such members is returned as it is *)
+Theorem c20_extend_json_only_keys : forall j, same_but_keys j (blank_json_keys j).
+Proof. exact blank_same_but_keys. Qed.
+Theorem c20_extend_json_identity : forall j, key_strings j = [] -> blank_json_keys j = j.
+Proof. exact blank_no_keys_id. Qed.
+Print Assumptions c20_extend_json_only_keys.
+(* (c20_no_leak marks the raw JSON of EVERY extension config by key, whatever parser is registered for it, so it covers
+   these documents too.)  Non-vacuity: four contexts - top, two array elements, nested - and a non-string private_key *)
+Example c20_extend_json_example :
+  let j := JObj [("agents", JArr [JObj [("tls_context", JObj [("private_key", JStr "K1")])];
+                                  JObj [("tls_context", JObj [("Private_Key", JStr "K2");
+                                                              ("inner", JObj [("tls_context", JObj [("PRIVATE_KEY", JStr "K3")])])])]]);
+                 ("n", JNum "12345678901234567");
+                 ("private_key", JObj [("private_key", JStr "K4")]);
+                 ("tls_context", JObj [("private_key", JStr ""); ("status", JBool true)])] in
+  key_strings j = ["K1"; "K2"; "K3"; "K4"; ""] /\
+  key_strings (blank_json_keys j) = [placeholder; placeholder; placeholder; placeholder; ""].
+Proof. split; vm_compute; reflexivity. Qed.
+
 (* non-vacuity: a configuration with a key at the cluster-manager, filter-chain (both shapes), listener-map, cluster
    and extension positions; without redaction the keys are visible, the dump shows none, the redactor does write
    (so c20_pure is not about an empty log) and none of its writes is below next0 *)
